@@ -41,6 +41,34 @@ static inline int post_verif_broadcast_shape(sv_t a, sv_t b, opt_hn_t ret)
   return IMPLIES(g < spec_bcast_dim(a, b), spec_bcast_compat(a, b, g) && HN_AT(OPT_VAL(ret), g) == spec_bcast_extent(a, b, g));
 }
 
+/* ---- kind F (std::array operands, meta::template_for branch): the SAME rule through a logical conversion */
+#ifndef ARR_AT
+#ifdef VERIF_NATIVE
+  #define ARR_AT(a, i) ((a)[i])
+#else
+  #define ARR_AT(a, i) ((a)._M_elems[i])
+#endif
+#endif
+#ifdef VERIF_NATIVE
+static inline sv_t c06_sv3(a3_t a) { sv_t s; s.resize(3); for (int k = 0; k < 3; k++) s[k] = a[k]; return s; }
+static inline sv_t c06_sv2(a2_t a) { sv_t s; s.resize(2); for (int k = 0; k < 2; k++) s[k] = a[k]; return s; }
+#else
+static inline sv_t c06_sv3(a3_t a) { sv_t s; s.size_ = 3UL; for (int k = 0; k < 8; k++) s.buffer.buffer[k] = (k < 3) ? a._M_elems[k] : 0UL; return s; }
+static inline sv_t c06_sv2(a2_t a) { sv_t s; s.size_ = 2UL; for (int k = 0; k < 8; k++) s.buffer.buffer[k] = (k < 2) ? a._M_elems[k] : 0UL; return s; }
+#endif
+static inline int c06_post_fixed(sv_t a, sv_t b, opt_a3_t ret)
+{
+  if (!OPT_HAS(ret)) return !spec_bcast_ok(a, b);
+  if (!spec_bcast_ok(a, b) || spec_bcast_dim(a, b) != 3UL) return 0;
+  int ok = 1;
+  for (unsigned long k = 0; k < 3; k++) ok = ok && ARR_AT(OPT_VAL(ret), k) == spec_bcast_extent(a, b, k);
+  return ok;
+}
+static inline int pre_verif_f_broadcast_shape(a3_t a, a3_t b) { return 1; }
+static inline int post_verif_f_broadcast_shape(a3_t a, a3_t b, opt_a3_t ret) { return c06_post_fixed(c06_sv3(a), c06_sv3(b), ret); }
+static inline int pre_verif_f_broadcast_shape32(a3_t a, a2_t b) { return 1; }
+static inline int post_verif_f_broadcast_shape32(a3_t a, a2_t b, opt_a3_t ret) { return c06_post_fixed(c06_sv3(a), c06_sv2(b), ret); }
+
 /* ---- shape_broadcast_to(a -> b): NumPy broadcast_to rule; result (b, free_axes) */
 static inline int spec_bto_axis_ok(sv_t a, sv_t b, unsigned long k)   /* k: axis of b */
 {
